@@ -505,6 +505,9 @@ struct PollAll<'r, 'a, 'b> {
     dev: Option<&'r mut BoxFut<'a>>,
     subs: &'r mut Vec<BoxFut<'b>>,
     dev_exited: &'r Cell<bool>,
+    /// called after every poll of the device: a report that was begun is visible (the device waits
+    /// for the subscriber, which has not been polled yet)
+    sample: &'r dyn Fn(),
 }
 
 impl Future for PollAll<'_, '_, '_> {
@@ -516,6 +519,7 @@ impl Future for PollAll<'_, '_, '_> {
                 if let Poll::Ready(()) = d.as_mut().poll(cx) {
                     this.dev_exited.set(true);
                 }
+                (this.sample)();
             }
         }
         for s in this.subs.iter_mut() {
@@ -676,7 +680,7 @@ impl World<'_> {
                 return;
             }
             {
-                let fut = PollAll { dev: dev.as_mut().map(|d| &mut **d), subs, dev_exited };
+                let fut = PollAll { dev: dev.as_mut().map(|d| &mut **d), subs, dev_exited, sample };
                 let _ = run_sim(&self.net, fut, 0);
             }
             sample();
@@ -761,7 +765,24 @@ pub struct CaseFacts {
     pub wall_ms: u64,
 }
 
+/// debugging aid: `VH_LOG=info|debug` prints the log of the rs-matter stacks with the virtual time
+struct VtLogger;
+impl log::Log for VtLogger {
+    fn enabled(&self, _: &log::Metadata) -> bool {
+        true
+    }
+    fn log(&self, r: &log::Record) {
+        eprintln!("[{:>7}] {:5} {}: {}", now_ms(), r.level(), r.target(), r.args());
+    }
+    fn flush(&self) {}
+}
+static VT_LOGGER: VtLogger = VtLogger;
+
 pub fn run_case(out: &mut Out, kind: &str, ops: &[String]) -> CaseFacts {
+    if let Ok(l) = std::env::var("VH_LOG") {
+        let _ = log::set_logger(&VT_LOGGER);
+        log::set_max_level(if l == "debug" { log::LevelFilter::Debug } else { log::LevelFilter::Info });
+    }
     let hdr = parse_hdr(kind);
     let crypto = test_only_crypto();
     let keys = Keys::new(&crypto);
@@ -1156,7 +1177,8 @@ impl Gen<'_> {
     }
 }
 
-pub const FAMILIES: [&str; 9] = ["primrace", "compete", "loss", "dupdelay", "sessloss", "blackout", "restart", "gone", "mix"];
+pub const FAMILIES: [&str; 11] =
+    ["primrace", "compete", "loss", "dupdelay", "sessloss", "blackout", "restart", "gone", "unselected", "persistrace", "mix"];
 
 fn gen_scenario(family: &str, r: &mut Rng, thorough: bool) -> (String, Vec<String>) {
     let seed = r.below(1 << 32);
@@ -1283,6 +1305,43 @@ fn gen_scenario(family: &str, r: &mut Rng, thorough: bool) -> (String, Vec<Strin
                 g.run_r(100, 5000);
             }
         }
+        "unselected" => {
+            // changes of an attribute the subscriber did not select, paced around the liveness point
+            g.sub(0, 0, max, true, "l", None);
+            if g.r.chance(1, 2) {
+                let s1 = g.sel();
+                g.sub(1, 0, max, true, s1, None);
+            }
+            g.run(3000);
+            for _ in 0..g.r.range(5, 9) {
+                g.run_r(max * 250, max * 500 - 500);
+                g.set(8);
+                if g.r.chance(1, 6) {
+                    g.set_any();
+                }
+            }
+            g.run_r(0, 5000);
+        }
+        "persistrace" => {
+            // a subscribe (which persists the table) while another subscription is being reported on
+            let s1 = g.sel();
+            g.sub(1, 0, max, true, s1, None);
+            g.run(3000);
+            g.op("black 1 1".into());
+            g.set_any();
+            g.run_r(100, 4000);
+            let s0 = g.sel();
+            g.sub(0, 0, max, true, s0, None);
+            g.run_r(1500, 5000);
+            g.op("black 1 0".into());
+            let cold = g.r.chance(2, 3);
+            g.op(format!("down {}", if cold { "cold" } else { "warm" }));
+            g.run_r(0, 3000);
+            g.op("up".into());
+            g.run_r(2000, 30_000);
+            g.set_any();
+            g.run_r(1000, 5000);
+        }
         "gone" => {
             let s0 = g.sel();
             g.sub(0, 0, max, true, s0, None);
@@ -1361,7 +1420,7 @@ fn gen_scenario(family: &str, r: &mut Rng, thorough: bool) -> (String, Vec<Strin
 
 /// Append the system cases (ids from `first_id`) to `out`.
 pub fn gen(out: &mut Out, r: &mut Rng, thorough: bool, first_id: u64) {
-    let n = if thorough { 400 } else { FAMILIES.len() as u64 };
+    let n = FAMILIES.len() as u64 * if thorough { 140 } else { 6 };
     for k in 0..n {
         let mut cr = r.fork();
         let family = FAMILIES[(k as usize) % FAMILIES.len()];
